@@ -487,6 +487,23 @@ def impl_map(m, d):
     return digest.get_peptide_to_protein_map_from_params(paths, [params])
 
 
+def score_tolerance(fmt):
+    """(absolute, relative) slack with which the oracle compares a reported PEP with the lowest PEP of the property text.
+    A PEP that is a cell of the file is compared exactly (the text: "the lowest PEP over all of its PSMs").  FragPipe
+    ("PEP = 1 - probability") and Sage ("PEP = 10^posterior_error") are computed: the text fixes the real number, the
+    code one floating-point evaluation of it (and, for FragPipe, adds 1e-16) -- 1 - p, 1 - p + 1e-16, 10.0 ** x,
+    exp(x ln 10) all satisfy the text.  The exact double is the model's business (correspondence side)."""
+    if fmt == "fragpipe":
+        return (Fraction(3, 10 ** 16), Fraction(1, 10 ** 12))
+    if fmt == "sage":
+        return (Fraction(0), Fraction(1, 10 ** 12))
+    return (Fraction(0), Fraction(0))
+
+
+def close_score(a, b, tol):
+    return a == b or abs(a - b) <= tol[0] + tol[1] * max(abs(a), abs(b))
+
+
 def _no_number(sc):
     """the PEP cell holds no number: empty, or text that is no float literal"""
     return isinstance(sc, str) and (sc == "empty" or sc.startswith("junk:"))
@@ -508,7 +525,7 @@ def expected(case):
     maps = [map_view(m) for m in case["maps"]] if remap else [None]
     if len(maps) == 1:
         maps = maps * len(case["files"])
-    best, seen = {}, {}
+    best, seen, scored = {}, {}, {}
     # free: stripped peptides the property text does not judge (a substring of a database sequence whose length lies
     # outside the window of a non-specific digest) -> the sequences containing them (all the tool may report for them);
     # unordered: peptides whose proteins come from a non-specific digest (a set of sequences: the order is not stated)
@@ -612,12 +629,21 @@ def expected(case):
                 q = raw
             s = Fraction(q.numerator / q.denominator)  # the double the tool holds
             info["scored"] += 1
+            scored.setdefault(key, []).append((s, ps))
             if key not in best or s < best[key][0]:
                 best[key] = (s, ps)
             elif s == best[key][0] and ps != best[key][1]:
                 info["ties"] += 1
     for k in info["free"]:  # a peptide not judged in one file may have judged PSMs in another: their lists are admissible too
         info["free"][k] += seen.get(k, [])
+    # audit-3 (C10-3, C10-4): the text says "the lowest PEP ... together with that PSM's proteins" -- of A PSM with the
+    # lowest PEP, not of the first one read; and "FragPipe PEP = 1 - probability, Sage PEP = 10^posterior_error" as real
+    # numbers, not as one particular floating-point evaluation.  info["tol"] = (absolute, relative) slack of the PEP
+    # comparison of `judge` (0, 0 for the formats whose PEP is a cell of the file), info["attain"][peptide] = the protein
+    # lists of every PSM whose PEP is the lowest one up to that slack.  Which of them the code picks and the exact double
+    # it computes stay pinned by the model (correspondence side: model_view/impl_view compare the list exactly).
+    info["tol"] = score_tolerance(fmt)
+    info["attain"] = {k: [ps for s, ps in v if close_score(s, best[k][0], info["tol"])] for k, v in scored.items()}
     return [(k, v[0], v[1]) for k, v in best.items() if k not in info["free"]], info
 
 
@@ -1974,7 +2000,6 @@ class P(Prop):
     def judge(self, want, pil, info=None):
         """the property on one ingested peptide list: `want`, `info` = expected(case)"""
         free = (info or {}).get("free", {})
-        unordered = (info or {}).get("unordered", ())
         for k, s, ps in pil:
             if s == "nan":
                 return f"peptide {k} reported with a NaN score (rows without a PEP must be ignored)"
@@ -1991,13 +2016,18 @@ class P(Prop):
             miss = sorted(set(wk) - set(gk))
             return f"peptides reported {sorted(gk)} but the PSMs with a PEP and a usable protein list strip to {sorted(wk)} (unexpected {extra}, missing {miss})"
         wd = {k: (s, ps) for k, s, ps in want}
+        tol = (info or {}).get("tol", (Fraction(0), Fraction(0)))
+        attain = (info or {}).get("attain", {})
         for k, s, ps in got:
-            if s != wd[k][0]:
+            if not close_score(s, wd[k][0], tol):
                 return f"peptide {k}: PEP {float(s)} reported, lowest PEP over its PSMs is {float(wd[k][0])}"
-            if ps != wd[k][1] and not (k in unordered and sorted(ps) == sorted(wd[k][1])):
-                return f"peptide {k}: proteins {ps} reported, the first PSM attaining the lowest PEP carries {wd[k][1]}"
-        if gk != wk:
-            return f"peptide order {gk} differs from order of first scored appearance {wk}"
+            # "that PSM's proteins": the protein list of A PSM attaining the lowest PEP (the text names no tie-break), as
+            # a collection (the text states no order of the proteins of a PSM; how many times one is named is kept)
+            ok = attain.get(k) or [wd[k][1]]
+            if not any(sorted(ps) == sorted(a) for a in ok):
+                return f"peptide {k}: proteins {ps} reported, the PSMs attaining the lowest PEP carry {ok}"
+        # (the order of the peptides in the returned collection is not stated by the text: the model pins it, theorem
+        #  `result_order`, and model_view/impl_view compare it -- a disagreement there is reported without a failing input)
         # purity of the resulting list (well-formed identifiers: markers only as prefixes)
         for k, s, ps in got_all:
             if not ps:
@@ -2006,6 +2036,11 @@ class P(Prop):
                 if any(o_is_decoy_id(p) for p in ps) and not o_decoy_list(ps):
                     return f"peptide {k}: protein list {ps} mixes targets and decoys"
         return None
+
+    @staticmethod
+    def _pil_content(pil):
+        """a peptide list up to what the property text fixes: peptide -> (PEP, proteins as a collection)"""
+        return sorted((k, s, sorted(ps)) for k, s, ps in pil)
 
     @staticmethod
     def _maps_untouched(c):
@@ -2081,7 +2116,7 @@ class P(Prop):
                 per_method.setdefault(m, []).append((where, c["pil"]))
         for m, seen in per_method.items():
             for where, pil in seen[1:]:
-                if pil != seen[0][1]:
+                if self._pil_content(pil) != self._pil_content(seen[0][1]):
                     return f"method {m} ingests {pil} in the run `{where}` but {seen[0][1]} in the run `{seen[0][0]}` on the same files"
         return None
 
